@@ -216,7 +216,8 @@ class Engine:
         if isinstance(s, LIST):
             arr = self.heap_arr(st, k + "#arr", z3.ArraySort(z3.IntSort(), s.elem.z3sort()))
             ln = self.heap_arr(st, k + "#len", z3.IntSort())
-            st.assume(ln[obj.ref] >= 0)        # type invariant of a Python list held in a field: every value ever stored has len >= 0
+            if not any(k_.startswith("$q:") for k_ in st.env):
+                st.assume(ln[obj.ref] >= 0)    # type invariant of a Python list held in a field: every value ever stored has len >= 0
             return VList(s.elem, arr[obj.ref], ln[obj.ref], is_str=s.is_str)
         if isinstance(s, DICT):
             dom = self.heap_arr(st, k + "#dom", z3.ArraySort(s.key.z3sort(), z3.BoolSort()))
@@ -298,6 +299,8 @@ class Engine:
         self.fn = self.src.functions.get(contract.qualname)
         if self.fn is None:
             raise KeyError("target %s not found in %s" % (contract.qualname, self.file))
+        if contract.extra.get("desugar_comprehensions"):
+            self.fn = desugar_comprehensions(self.fn)
         self.obligations = []
         self.counter = {}
         self.paths = 0
@@ -485,8 +488,19 @@ class Engine:
         yield st, (Flow.RAISE, name)
 
     def stmt_Assert(self, node, st):
+        k = self.rel_line(node)
+        if self.contract is not None and k in self.contract.extra.get("assume_asserts", ()):
+            # a checked precondition: executions on which it fails raise AssertionError at this point and are outside the
+            # contract (partial correctness on the non-raising executions); recorded in the evidence
+            self.assumptions.add("%s: executions failing `assert %s` raise AssertionError there and are outside the contract" % (self.contract.qualname, ast.unparse(node.test)))
+            try:
+                st.assume(as_bool(self.eval(node.test, st)))
+            except Unsupported:
+                pass
+            yield st, (Flow.NEXT,)
+            return
         c = as_bool(self.eval(node.test, st))
-        self.oblige(st, "assert", c, "L%d" % self.rel_line(node))
+        self.oblige(st, "assert", c, "L%d" % k)
         yield st, (Flow.NEXT,)
 
     def rel_line(self, node):
@@ -593,6 +607,11 @@ class Engine:
             return VOpt(sort, sort.dt.some(to_z3(v, sort.inner)))
         if isinstance(sort, _Real) and is_z3int(v):
             return to_z3(v, sort)
+        if isinstance(v, VConstDict) and isinstance(sort, DICT):
+            d = VDict(sort.key, sort.val, z3.K(sort.key.z3sort(), z3.BoolVal(False)), z3.K(sort.key.z3sort(), to_z3(sort.val.fresh("dflt"), sort.val)))
+            for k, x in v.items:
+                d = self.store_item(d, k, x, st)
+            return d
         return v
 
     def unpack(self, v, n, st):
@@ -870,9 +889,12 @@ class Engine:
                                      post_body=post_body, extra_havoc=(idx, ), auto_variant=lambda s: hi - s.env[idx],
                                      implicit_inv=implicit)
             return
+        self.last_set_iter = None
         seqlen, getter = self.iter_protocol(it, st)
         if seqlen is None:
             raise Unsupported("for over %r" % (it,))
+        if self.last_set_iter is not None:
+            st.env["__setiter%d__" % o] = (self.last_set_iter, idx)      # invariants refer to the elements already visited as visited(<loop>, v)
         st.env[idx] = z3.IntVal(0)
 
         def implicit(s):
@@ -902,8 +924,14 @@ class Engine:
             else:
                 yield s1, flow
 
+    def need_value(self, st, v):
+        """a MAYBE(container) used as a container: TypeError if it is None"""
+        if getattr(v, "none", None) is not None:
+            self.oblige(st, "noexc", z3.Not(v.none), "TypeError-None-container")
+
     def iter_protocol(self, it, st):
         """(length, getter(index)->value) of an indexable iterable captured at loop entry."""
+        self.need_value(st, it)
         if isinstance(it, VList):
             return it.len, (lambda i: from_z3(it.arr[i], it.elem))
         if isinstance(it, VTuple):
@@ -928,6 +956,22 @@ class Engine:
             return z3.If(hi > lo, hi - lo, 0), (lambda i: lo + i)
         if isinstance(it, VModel) and hasattr(it, "sym_iter"):
             return it.sym_iter(self, st)
+        if isinstance(it, VRef) and it.cls in self.reg.iter_fields:
+            return self.iter_protocol(self.load_field(st, it, self.reg.iter_fields[it.cls]), st)
+        if isinstance(it, VSet):
+            # a (finite) set is iterated in SOME order without repetition: an enumeration `ord` of its elements, unknown to the proof
+            zs = it.key.z3sort()
+            n = z3.Int(fresh_name("setlen"))
+            ordr = z3.Array(fresh_name("setord"), z3.IntSort(), zs)
+            pos = z3.Function(fresh_name("setpos"), zs, z3.IntSort())
+            i = z3.Int(fresh_name("i"))
+            k = z3.Const(fresh_name("k"), zs)
+            st.assume(n >= 0)
+            st.assume(z3.ForAll([i], z3.Implies(z3.And(i >= 0, i < n), z3.And(it.dom[ordr[i]], pos(ordr[i]) == i)), patterns=[ordr[i]]))
+            st.assume(z3.ForAll([k], z3.Implies(it.dom[k], z3.And(pos(k) >= 0, pos(k) < n, ordr[pos(k)] == k)), patterns=[pos(k)]))
+            self.assumptions.add("sets are finite and iterated once per element in an unspecified order")
+            self.last_set_iter = (ordr, pos, n, it)
+            return n, (lambda j: from_z3(ordr[j], it.key))
         return None, None
 
     def stmt_With(self, node, st):
@@ -1258,6 +1302,8 @@ class Engine:
             if isinstance(x, (z3.ExprRef, VList, VTuple, VDict, VSet, int, VModel)):
                 if isinstance(x, VModel) and hasattr(x, "sym_is_none"):
                     return x.sym_is_none()
+                if getattr(x, "none", None) is not None:
+                    return x.none
                 return z3.BoolVal(False)
             raise Unsupported("is None on %r" % (x,))
         if isinstance(a, VRef) and isinstance(b, VRef):
@@ -1310,6 +1356,7 @@ class Engine:
         raise Unsupported(msg)
 
     def contains(self, container, x, st):
+        self.need_value(st, container)
         if isinstance(container, VDict):
             return container.dom[to_z3(x, container.key)]
         if isinstance(container, VSet):
@@ -1331,8 +1378,15 @@ class Engine:
         return self.getitem(base, key, st)
 
     def getitem(self, base, key, st):
+        self.need_value(st, base)
         if isinstance(base, VList):
             k = to_z3(key)
+            if self.spec_mode:
+                # specification language: s[i] is the i-th element (no wrap-around of a symbolic index: `If` terms make quantifier triggers
+                # unusable); literal negative indices count from the end as in Python
+                ks = z3.simplify(k)
+                idx = (k + base.len) if (z3.is_int_value(ks) and ks.as_long() < 0) else k
+                return from_z3(base.arr[idx], base.elem)
             idx = z3.If(k < 0, k + base.len, k)
             self.oblige(st, "noexc", z3.And(idx >= 0, idx < base.len), "IndexError")
             return from_z3(base.arr[idx], base.elem)
@@ -1375,6 +1429,7 @@ class Engine:
             raise Unsupported("slice of %r" % (base,))
         if sl.step is not None:
             raise Unsupported("slice step")
+        self.need_value(st, base)
         n = base.len
 
         def clamp(v, default):
@@ -1441,9 +1496,28 @@ class Engine:
 
     def materialize(self, gen, st):
         n, i, c, e = self.gen_lambda(gen, st)
-        if not z3.is_true(z3.simplify(c)):
-            raise Unsupported("filtered comprehension materialised as list")
         s = sort_of(e)
+        if not z3.is_true(z3.simplify(c)):
+            # the filtered list is the subsequence of the elements passing the filter: src(j) is the source index of result element j
+            # (strictly increasing, onto the passing indices via dst)
+            m = z3.Int(fresh_name("flen"))
+            arr = z3.Array(fresh_name("farr"), z3.IntSort(), s.z3sort())
+            src = z3.Function(fresh_name("fsrc"), z3.IntSort(), z3.IntSort())
+            dst = z3.Function(fresh_name("fdst"), z3.IntSort(), z3.IntSort())
+            j, j2 = z3.Int(fresh_name("j")), z3.Int(fresh_name("j"))
+            ez = to_z3(e, s)
+            at = lambda t, x: z3.substitute(t, (i, x))
+            st.assume(z3.And(m >= 0, m <= n))
+            st.assume(z3.ForAll([j], z3.Implies(z3.And(j >= 0, j < m), z3.And(src(j) >= 0, src(j) < n, at(c, src(j)), arr[j] == at(ez, src(j)), dst(src(j)) == j)),
+                                patterns=[src(j), arr[j]]))
+            st.assume(z3.ForAll([j, j2], z3.Implies(z3.And(j >= 0, j < j2, j2 < m), src(j) < src(j2)), patterns=[z3.MultiPattern(src(j), src(j2))]))
+            pats = [dst(i)]
+            if not z3.eq(at(ez, z3.IntVal(0)), ez) and not z3.is_var(ez) and z3.is_app(ez) and ez.num_args() > 0:
+                pats.append(ez)       # the element term of source index i also triggers "passing elements occur in the result"
+            st.assume(z3.ForAll([i], z3.Implies(z3.And(i >= 0, i < n, c), z3.And(dst(i) >= 0, dst(i) < m, src(dst(i)) == i)), patterns=pats))
+            r = VList(s, arr, m, is_str=False)
+            r.filter_src, r.filter_dst = src, dst
+            return r
         return VList(s, z3.Lambda([i], to_z3(e, s)), n, is_str=False)
 
     # ---- calls
@@ -1565,6 +1639,57 @@ class Engine:
     def note_assumption(self, text):
         if text:
             self.assumptions.add(text)
+
+
+def desugar_comprehensions(fn):
+    """Statement-level dict/list/set comprehensions (the whole right-hand side of an assignment or the returned value) rewritten into the
+    loop they abbreviate, so that a loop invariant can be attached and calls in the element expression go through contracts:
+        T = {k: v for x in it if c}   ==>   __compN = {} ; for x in it: (if c:) __compN[k] = v ; T = __compN
+    (list: .append(v); set: .add(v)).  Only comprehensions whose element / key / value / filter contains a call are rewritten (the others are
+    pure and evaluated by the comprehension model).  Python evaluates a comprehension exactly as this loop, in a scope of its own: the loop variable is
+    renamed apart when it would shadow a name used elsewhere in the function.  Loop ordinals count the introduced loops in source order."""
+    fn = copy.deepcopy(fn)
+    counter = [0]
+    used = {n.id for n in ast.walk(fn) if isinstance(n, ast.Name)} | {a.arg for a in fn.args.args}
+
+    def rewrite_block(body):
+        out = []
+        for stmt in body:
+            for f in ("body", "orelse", "finalbody"):
+                if hasattr(stmt, f) and isinstance(getattr(stmt, f), list) and not isinstance(stmt, (ast.FunctionDef, ast.ClassDef)):
+                    setattr(stmt, f, rewrite_block(getattr(stmt, f)))
+            val = stmt.value if isinstance(stmt, (ast.Assign, ast.Return, ast.AnnAssign)) else None
+            def effectful(c):
+                parts = ([c.key, c.value] if isinstance(c, ast.DictComp) else [c.elt]) + list(c.generators[0].ifs)
+                return any(isinstance(n, ast.Call) for p_ in parts for n in ast.walk(p_))
+            if isinstance(val, (ast.DictComp, ast.ListComp, ast.SetComp)) and len(val.generators) == 1 and not val.generators[0].is_async and effectful(val):
+                g = val.generators[0]
+                tmp = "__comp%d" % counter[0]
+                counter[0] += 1
+                acc = ast.Name(id=tmp, ctx=ast.Load())
+                if isinstance(val, ast.DictComp):
+                    init = ast.Dict(keys=[], values=[])
+                    step = ast.Assign(targets=[ast.Subscript(value=acc, slice=val.key, ctx=ast.Store())], value=val.value)
+                elif isinstance(val, ast.ListComp):
+                    init = ast.List(elts=[], ctx=ast.Load())
+                    step = ast.Expr(value=ast.Call(func=ast.Attribute(value=acc, attr="append", ctx=ast.Load()), args=[val.elt], keywords=[]))
+                else:
+                    init = ast.Call(func=ast.Name(id="set", ctx=ast.Load()), args=[], keywords=[])
+                    step = ast.Expr(value=ast.Call(func=ast.Attribute(value=acc, attr="add", ctx=ast.Load()), args=[val.elt], keywords=[]))
+                inner = [step]
+                for c in reversed(g.ifs):
+                    inner = [ast.If(test=c, body=inner, orelse=[])]
+                loop = ast.For(target=g.target, iter=g.iter, body=inner, orelse=[])
+                pre = [ast.Assign(targets=[ast.Name(id=tmp, ctx=ast.Store())], value=init), loop]
+                for n in pre:
+                    ast.copy_location(n, stmt)
+                    ast.fix_missing_locations(n)
+                stmt.value = ast.copy_location(ast.Name(id=tmp, ctx=ast.Load()), val)
+                out += pre
+            out.append(stmt)
+        return out
+    fn.body = rewrite_block(fn.body)
+    return fn
 
 
 MUTATING_METHODS = {"append", "add", "update", "pop", "remove", "discard", "clear", "extend", "sort", "insert",
